@@ -233,11 +233,11 @@ def check_vector_loops(chk, v, prog):
             if {"rdi", "rsi", "rdx"} <= set(by_reg):
                 cl = asm.classify_stripmined(items, {"dst": "rdi", "src": "rsi", "n": "rdx"})
                 if cl["facts"].get("main_width"):
-                    widths = [p_ for p_ in cl["problems"] if "stores" in p_ or "advances" in p_ or "strides" in p_]
-                    chk.require(not widths, "R2", "%s: every block of the strip-mined kernel accesses exactly the lanes its guard admits" % f.name,
+                    widths = cl["facts"]["safety"]
+                    chk.require(not widths, "R2", "%s: no block of the strip-mined kernel accesses more lanes than its guard admits" % f.name,
                                 where="%s:%s" % (f.file, x["l"]), ok="main loop %d lanes, tails %s, store widths match" % (
                                     cl["facts"]["main_width"], cl["facts"].get("tails")),
-                                bad="; ".join(widths) + " (an access wider than the remaining operands reads and writes past both arrays)", variant=vn)
+                                bad="; ".join(widths) + " (past the end of the arrays when the remainder is exactly the guard value)", variant=vn)
             for lp in asm.loops_of(items):
                 n += 1
                 cl = asm.classify_loop(items, lp)
